@@ -117,7 +117,8 @@ PROGRAMS = {
 
 QUICK_SYSTEMS = [('build', 'build'), ('build_nested', 'build'), ('build_nested', 'build_nested'), ('edit2', 'edit2'),
                  ('suspend_edit', 'edit2'), ('suspend_edit', 'suspend_edit'), ('nested_suspend', 'edit2'),
-                 ('tracking_off_on', 'edit2'), ('tracking_off_on', 'suspend_edit'), ('sig_f', 'sig_g'), ('sig_fg', 'sig_g'),
+                 ('tracking_off_on', 'edit2'), ('tracking_off_on', 'suspend_edit'), ('suspend_edit', 'nested_suspend'), ('tracking_off_on', 'nested_suspend'),
+                 ('sig_f', 'sig_g'), ('sig_fg', 'sig_g'),
                  ('sig_f', 'sig_f'), ('edit_sig', 'sig_g'), ('build', 'suspend_edit')]
 THOROUGH_EXTRA = [('build', 'build', 'build'), ('suspend_edit', 'edit2', 'edit2'), ('sig_f', 'sig_g', 'sig_fg'),
                   ('tracking_off_on', 'suspend_edit', 'edit2'), ('build_nested', 'build', 'suspend_edit'),
@@ -339,9 +340,15 @@ def run_bmc(tier='quick'):
                                   sample=dict(schedule=[m[x].as_long() for x in sched])))
     else:
       results.append(DirectResult('twin_shared_state ' + ' || '.join(names), 'inconclusive',
-                                  f'expected sat for the twin with shared state, got {r}: the encoding may be vacuous', 0.0))
-      return results
-  systems = list(QUICK_SYSTEMS) + (THOROUGH_EXTRA if tier != 'quick' else [])
+                                  f'expected sat for the twin with shared state, got {r}: the encoding may be vacuous for this '
+                                  'kind of state (the systems below are still checked)', 0.0))
+  systems = list(QUICK_SYSTEMS)
+  if tier != 'quick':
+    # thorough: every unordered pair of programs (with repetition) and the listed three-thread systems
+    names_all = list(PROGRAMS)
+    pairs = [(a, b) for i, a in enumerate(names_all) for b in names_all[i:]]
+    have = {tuple(sorted(x)) for x in systems}
+    systems += [p for p in pairs if tuple(sorted(p)) not in have] + THOROUGH_EXTRA
   for names in systems:
     progs, locs, tl = [], {}, set()
     for n in names:
@@ -389,7 +396,7 @@ def run_bmc(tier='quick'):
         pc = m.eval(sysm.S[step][(tid, ('pc',))]).as_long()
         o = progs[tid][pc] if pc < len(progs[tid]) else None
         if o is not None:
-          loc = o[2] if o[0] != 'store' else o[1]
+          loc = o[1] if o[0] in ('store', 'push') else o[2]
           lines.append((tid, o[0], '.'.join(map(str, loc)), o[-1]))
       rep = _replay(names, lines, per_thread)
       results.append(DirectResult(name, 'violated', f'K={K}: schedule of shared accesses (thread, op, location, line): {lines}; '
